@@ -92,7 +92,9 @@ def validate_paths(lifted, which, traps, side_assumptions=(), max_paths=12):
             continue
         av[0] = str(which)
         want = lifted.describe(p, m)
-        got = observe(lifted.prog.run(av, timeout=60), traps)
+        # validation runs only (never replays of counterexamples): a small heap makes the runtime
+        # start twice as fast; the kernels allocate at most a few short arrays
+        got = observe(lifted.prog.run(av, timeout=60, env={"DORA_FLAGS": "--max-heap-size=16M"}), traps)
         runs += 1
         if tuple(want) != tuple(got):
             bad.append({"kernel": lifted.k.name, "backend": lifted.backend, "argv": av, "lifted": list(want), "real": list(got),
